@@ -21,8 +21,8 @@ D = "orquestra.quantum.distributions._measurement_outcome_distribution"
 MANIFEST = {
     "engine": "engine-F",
     "category": "other",
-    "technique": "contract-based verification of the frame conditions (source distribution / input dictionary / parameter dictionary unmodified) by static ownership analysis of the current AST; the value-level contracts (normalisation, marginal = sum over projecting outcomes in listed order, distance laws) are checked by exhaustive enumeration with exact rational weights over stated small domains (bounded stand-in, not proved: the code iterates Python dicts, outside the VC generator's fragment)",
-    "text": "Frame clauses are decided for all inputs; the marginal and normalisation clauses are decided exhaustively for all key sets up to 4 keys over 3 subsystems with multi-digit outcomes and every ordered list of distinct qubits - bounded, so the level claimed is 'other' (frame proof + exhaustive bounded enumeration), not proof. Kernel positive-semidefiniteness and Gibbs' inequality are not decidable here.",
+    "technique": "contract-based deductive verification: the marginal postcondition of subdistribution (a projected outcome is present iff some source outcome projects to it and carries the sum of exactly those probabilities; out-of-range / duplicate qubits raise) proved by a loop invariant over a symbolic dictionary (Engine V, z3) for all distributions and all qubit lists; frame conditions (source distribution / input dictionary / parameter dictionary unmodified) by static ownership analysis; normalisation by the constructor and the distance laws by exhaustive enumeration with exact rational weights over stated small domains (bounded)",
+    "text": "The marginal clause and the frame clauses are proved for all inputs; the constructor's normalisation and the distance laws are decided exhaustively for all key sets up to 4 keys over 3 subsystems with multi-digit outcomes and every ordered list of distinct qubits - bounded, so the level claimed is 'other' (frame proof + exhaustive bounded enumeration), not proof. Kernel positive-semidefiniteness and Gibbs' inequality are not decidable here.",
     "note": "Trusted: Engine F summaries; Python dict semantics executed natively. Bounds stated per obligation in the evidence.",
 }
 TRUSTED = ["vfw/frame.py ownership analysis", "CPython executing the real functions on enumerated inputs"]
@@ -202,9 +202,120 @@ def _check_saveload(i):
     return True, "ok"
 
 
+def _marginal_ob(fb):
+    """`subdistribution` is the marginal for ALL distributions and ALL lists of distinct in-range qubits (Engine V, symbolic dictionaries):
+    a projected key is present iff some source outcome projects to it, and carries the sum of the probabilities of exactly those outcomes."""
+    import z3
+    from vfw import sym, vcontract as vc, vrt, vtypes
+    from vfw.sym import Obj, SObj, SSeq, SInt
+    KEYAT = z3.Function("outcome_at", Obj, z3.IntSort(), z3.IntSort())
+    KEYLEN = z3.Function("outcome_len", Obj, z3.IntSort())
+    MSUM = z3.Function("marginal_sum", Obj, z3.IntSort(), z3.RealSort())   # (projected key, number of source outcomes consumed)
+    ISNORM = z3.Function("is_normalized", z3.ArraySort(Obj, z3.RealSort()), z3.BoolSort())
+    sym.OBJ_SCHEMAS["Key"] = {"__getitem__": lambda self: (lambda i: sym.wrap_expr(KEYAT(self.e, sym.lift(i)))),
+                              "__len__": lambda self: sym.wrap_expr(KEYLEN(self.e))}
+    state = {}
+
+    PROJ = z3.Function("projected_outcome", Obj, Obj)     # defined (axiom below) as the key the code builds: tuple(key[i] for i in active_qubits)
+    CNT = z3.Function("marginal_count", Obj, z3.IntSort(), z3.IntSort())
+
+    def proj_term(key, active):
+        a = SSeq.of(active)
+        return vrt.box_key(SSeq(("fun", a.length(), lambda t: key[a.get(t)]), "tuple"))
+
+    def define_proj():
+        c = sym.cur()
+        if "proj" in c.axioms_done:
+            return
+        c.axioms_done.add("proj")
+        x = z3.Const("x!proj", Obj)
+        c.nofork += 1
+        try:
+            t = proj_term(SObj("Key", x), state["active"])
+        finally:
+            c.nofork -= 1
+        c.axioms.append(z3.ForAll([x], PROJ(x) == t, patterns=[PROJ(x)]))
+        nk = z3.Const("nk!ax0", Obj)
+        kk = z3.Int("k!ax0")
+        c.axioms.append(z3.ForAll([nk], z3.And(MSUM(nk, 0) == 0, CNT(nk, 0) == 0), patterns=[MSUM(nk, 0)]))
+        c.axioms.append(z3.ForAll([nk, kk], CNT(nk, kk) >= 0, patterns=[CNT(nk, kk)]))     # a count is never negative (induction on k; trusted)
+
+    def unfold(E):
+        """for all nk and the index E: marginal_sum(nk,E) = marginal_sum(nk,E-1) + [PROJ(key_(E-1)) = nk] p_(E-1); same for the count"""
+        c = sym.cur()
+        define_proj()
+        src = state["src"]
+        nk = z3.Const("nk!ax", Obj)
+        e = sym.lift(E)
+        kj = z3.Select(src.keyseq.node[2], e - 1)
+        hit = PROJ(kj) == nk
+        c.axioms.append(z3.ForAll([nk], z3.Implies(e >= 1, z3.And(MSUM(nk, e) == MSUM(nk, e - 1) + z3.If(hit, z3.Select(src.val, kj), z3.RealVal(0)),
+                                                                    CNT(nk, e) == CNT(nk, e - 1) + z3.If(hit, 1, 0))), patterns=[MSUM(nk, e), CNT(nk, e)]))
+
+    def is_marginal(d, k):
+        """for every key nk: d has nk iff at least one of the first k source outcomes projects to it (count > 0); the running sum of the
+        probabilities of the outcomes projecting to nk equals d[nk] where nk is present and is 0 where it is absent"""
+        c = sym.cur()
+        unfold(k)
+        nk = z3.Const(f"nk!{c.n}", Obj)
+        c.n += 1
+        if isinstance(d, dict):
+            if d:
+                raise sym.Unsupported("non-empty concrete dictionary")
+            has, val = z3.BoolVal(False), z3.RealVal(0)
+        else:
+            has, val = z3.Select(d.has, nk), z3.Select(d.val, nk)
+        kk = sym.lift(k)
+        return sym.wrap_expr(z3.ForAll([nk], z3.And(has == (CNT(nk, kk) > 0), MSUM(nk, kk) == z3.If(has, val, z3.RealVal(0))), patterns=[MSUM(nk, kk), CNT(nk, kk)]))
+
+    class Dist:
+        """stands for MeasurementOutcomeDistribution(new_counts, normalize=...): holds the dictionary it was given"""
+
+        def __init__(self, d, normalize=True):
+            self.distribution_dict, self.normalize = d, normalize
+
+    def is_normalized_stub(d):
+        return sym.wrap_expr(ISNORM(d.val))
+
+    def setup(args, ns):
+        Cls = ns["_orig_MeasurementOutcomeDistribution"] if "_orig_MeasurementOutcomeDistribution" in ns else ns["MeasurementOutcomeDistribution"]
+        self_ = Cls.__new__(Cls)
+        self_.distribution_dict = vtypes.mk("Dict[Key,Real]", "distribution")
+        args["self"] = self_
+        state["src"], state["active"] = self_.distribution_dict, args["active_qubits"]
+        src = self_.distribution_dict
+        # class invariant of a constructed distribution: non-empty, all outcomes of one length
+        c = sym.cur()
+        n = sym.lift(src.keyseq.length())
+        c.assume(n >= 1)
+        i = z3.Int("i!kl")
+        c.assume(z3.ForAll([i], z3.Implies(z3.And(0 <= i, i < n), KEYLEN(z3.Select(src.keyseq.node[2], i)) == KEYLEN(z3.Select(src.keyseq.node[2], 0))),
+                           patterns=[z3.Select(src.keyseq.node[2], i)]))
+        c.inputs["n_outcomes"] = src.keyseq.length()
+
+    c = vc.Contract(
+        key=D + ":MeasurementOutcomeDistribution.subdistribution", params={"self": "Any", "active_qubits": "Seq[Int]"},
+        requires="len(active_qubits) >= 1 and all(a >= 0 for a in active_qubits)",
+        ghost={"src": "self.distribution_dict", "klen": "KLEN(self.distribution_dict)"},
+        raises={"ValueError": "any(a >= klen for a in active_qubits) or not all(implies(i < j, active_qubits[i] != active_qubits[j]) for i in range(len(active_qubits)) for j in range(len(active_qubits)))"},
+        ensures="IS_MARGINAL(result.distribution_dict, len(src.keys())) and result.normalize == ISNORM(src) and self.distribution_dict is src",
+        loops={"for#0": {"invariant": "IS_MARGINAL(new_counts, k)", "types": {"new_counts": "NewDict[Key,Real]"}}},
+        spec={"IS_MARGINAL": is_marginal, "KLEN": lambda d: sym.wrap_expr(KEYLEN(sym.lift(d.keyseq.get(0)))), "ISNORM": is_normalized_stub},
+        doc="marginal: a projected outcome (qubits in the listed order) is present iff some source outcome projects to it and carries the sum of exactly those probabilities; "
+            "out-of-range or duplicated qubits raise ValueError; the source dictionary object is untouched")
+
+    def call(ns, a):
+        return a["self"].subdistribution(a["active_qubits"])
+    return vprop.fn_ob("C17", c, {}, call=call, setup=setup, extra_stubs=lambda: {"MeasurementOutcomeDistribution": Dist, "is_normalized": is_normalized_stub},
+                       fallback=fb, obid="C17.subdistribution.marginal.contract", timeout_ms=60000,
+                       desc="subdistribution is the marginal for ALL distributions and ALL lists of distinct in-range qubits in any order (loop invariant over a symbolic dictionary); "
+                            "out-of-range / duplicate qubits raise ValueError")
+
+
 def build(tier, seed):
     obs = []
     fb = vprop.enum_ob("x", [], lambda: list(_key_sets())[:40], _check_marginal, "").run
+    obs.append(_marginal_ob(fb))
 
     def frame_ob(key):
         def run():
